@@ -421,4 +421,108 @@ example : WF demoPath := by simp [WF, demoPath]
 example : exportedLookup ["copy_refs", "assign_params", "copy_params", "roots_extend", "roots_append"]
     [] demoPath "x" = .val 1 := by decide
 
+/-! ## 6. the cache methods of the generated classes
+
+`Generated.exportCacheNoParam` / `Generated.exportCacheParam` are the templates `SpaceTranslator.cache_method_noparam`
+/ `cache_method` of exporter.py read as programs (tables.cache_method_tokens); the check also reads every cache
+method of the generated classes of the failure family back into the same form (`cm`) and compares. -/
+
+/-- what the templates say today -/
+theorem cache_templates_parse :
+    CProg.ofTokens Generated.exportCacheNoParam
+        = some { neg := false, thn := [.retSlot], els := [.evalBoth, .setHas, .retTmp], aft := [] } ∧
+    CProg.ofTokens Generated.exportCacheParam
+        = some { neg := false, thn := [.retItem], els := [.evalTmp, .putTmp, .retTmp], aft := [] } := by
+  decide
+
+/-- Both generated cache methods follow the protocol (`CacheOK`): read by read, from every state of the cache. -/
+theorem generated_cache_methods_ok (V : Type) (toks : List String) (p : CProg)
+    (hm : toks = Generated.exportCacheNoParam ∨ toks = Generated.exportCacheParam)
+    (hp : CProg.ofTokens toks = some p) : CacheOK V p := by
+  have hpp := cache_templates_parse
+  rcases hm with rfl | rfl
+  · rw [hpp.1] at hp
+    cases hp
+    refine ⟨?_, ?_, ?_⟩
+    · intro s h; simp [runCache, execOps, h]
+    · intro s v h; simp [runCache, execOps, h]
+    · intro s f h; simp [runCache, execOps, h]
+  · rw [hpp.2] at hp
+    cases hp
+    refine ⟨?_, ?_, ?_⟩
+    · intro s h; simp [runCache, execOps, h]
+    · intro s v h; simp [runCache, execOps, h]
+    · intro s f h; simp [runCache, execOps, h]
+
+/-- **A failed evaluation stores nothing: the next read evaluates again.**  For both generated cache methods, from
+a cache without a value: a read at which the formula raises ends with that exception, leaves the cache without a
+value, and the read after it calls the formula again and shows what the formula does THEN (the exception again, or
+the value). -/
+theorem failed_evaluation_stores_nothing (V : Type) (toks : List String) (p : CProg)
+    (hm : toks = Generated.exportCacheNoParam ∨ toks = Generated.exportCacheParam)
+    (hp : CProg.ofTokens toks = some p) (s : CSt V) (h : s.has = false) (next : Option V) :
+    (runCache p none s).2.has = false ∧
+    reads p [none, next] s = [.error, match next with | none => .error | some v => .value (some v)] ∧
+    callsAfter p [none, next] s = s.calls + 2 := by
+  have ok := generated_cache_methods_ok V toks p hm hp
+  have := reads_eq_spec_of_ok ok [none, next] s none h
+  refine ⟨(ok.fail s h).2.1, ?_, ?_⟩
+  · rw [this.1]; cases next <;> rfl
+  · rw [this.2]; cases next <;> rfl
+
+/-- **A successful evaluation is returned unchanged thereafter**, whatever the formula would do if it were called
+again (it is not called). -/
+theorem stored_value_returned_thereafter (V : Type) (toks : List String) (p : CProg)
+    (hm : toks = Generated.exportCacheNoParam ∨ toks = Generated.exportCacheParam)
+    (hp : CProg.ofTokens toks = some p) (s : CSt V) (h : s.has = false) (v : V) (later : List (Option V)) :
+    reads p (some v :: later) s = (some v :: later).map (fun _ => .value (some v)) ∧
+    callsAfter p (some v :: later) s = s.calls + 1 := by
+  have ok := generated_cache_methods_ok V toks p hm hp
+  have := reads_eq_spec_of_ok ok (some v :: later) s none h
+  refine ⟨?_, ?_⟩
+  · rw [this.1]
+    simp only [specReads, List.map_cons, List.cons.injEq, true_and]
+    exact specReads_all_stored later v
+  · rw [this.2]; rfl
+
+/-- **The exported cache shows what modelx shows.**  For every sequence of reads of one cached element of an
+exported package (without or with parameters: one argument tuple), whatever the formula does at each read
+(raise or return): the reads show the exception until the first evaluation that returns and that value from then
+on - `specReads`, which is what modelx's own cache does (Exec: `rolledback` leaves no value of a failed
+evaluation) - and the formula is evaluated once per read up to that point and never after. -/
+theorem exported_cache_reads_eq_spec (V : Type) (toks : List String) (p : CProg)
+    (hm : toks = Generated.exportCacheNoParam ∨ toks = Generated.exportCacheParam)
+    (hp : CProg.ofTokens toks = some p) (fs : List (Option V)) :
+    reads p fs {} = specReads fs none ∧ callsAfter p fs {} = specCalls fs none := by
+  have := reads_eq_spec_of_ok (generated_cache_methods_ok V toks p hm hp) fs {} none rfl
+  exact ⟨this.1, by rw [this.2]; simp⟩
+
+/-- not vacuous: fails, fails, returns 7, (would fail), (would return 9) -/
+example : (CProg.ofTokens Generated.exportCacheNoParam).map
+      (fun p => (reads p [none, none, some 7, none, some 9] ({} : CSt Nat),
+                 callsAfter p [none, none, some 7, none, some 9] ({} : CSt Nat)))
+    = some ([.error, .error, .value (some 7), .value (some 7), .value (some 7)], 3) := by decide
+
+example : (CProg.ofTokens Generated.exportCacheParam).map
+      (fun p => reads p [none, some 7, none] ({} : CSt Nat))
+    = some [.error, .value (some 7), .value (some 7)] := by decide
+
+/-- **Negative witness**: raising the flag BEFORE the formula is called (`if not has: has = True; slot = f()`
+followed by `return slot`; seeded change C15-mutG) is not the protocol: after a failed evaluation the next read
+returns `None` without evaluating. -/
+theorem flag_before_evaluation_fails :
+    ∃ p, CProg.ofTokens ["ifnothas", "setHas", "evalSlot", "else", "end", "retSlot"] = some p ∧
+      reads p [none, none, some 7] ({} : CSt Nat) = [.error, .value none, .value none] ∧
+      ¬ CacheOK Nat p := by
+  refine ⟨{ neg := true, thn := [.setHas, .evalSlot], els := [], aft := [.retSlot] }, by decide, by decide, ?_⟩
+  intro ok
+  have := (ok.fail {} rfl).2.1
+  revert this
+  decide
+
+/-- ... and so is storing a placeholder in the dict before the call (`self._v_x[key] = None` first) - here:
+`putTmp` before `evalTmp` -/
+example : (CProg.ofTokens ["ifhas", "retItem", "else", "putTmp", "evalTmp", "putTmp", "retTmp", "end"]).map
+      (fun p => reads p [none, some 7] ({} : CSt Nat)) = some [.error, .value none] := by decide
+
 end MxModel.C15
